@@ -574,7 +574,11 @@ def ew2(op, x, y):
         u, v = fx(ix), fy(iy)
         if op == 'truediv' and not isinstance(u, Sym) and not isinstance(v, Sym):
             return (_np.float64(u) / _np.float64(v)).item()
-        return cast_elem(f(u, v), rdt)
+        core.ARRAY_CTX[0] = True
+        try:
+            return cast_elem(f(u, v), rdt)
+        finally:
+            core.ARRAY_CTX[0] = False
     return _finish(LArr(tuple(oshape), rdt, g))
 
 
